@@ -27,6 +27,20 @@ type progCase struct {
 var c02Buckets = []string{"bk0", "bk1", "bk2"}
 var c02Keys = []string{"a", "b", "d/x", "d/y", "d/e/z", "f.txt"}
 
+// keys that lie below another key of the universe ("a/q" below "a") or where the directory
+// of others is ("d"): storable next to them on the key-value backends, outside the key domain
+// of the file system backends while the other key is live (refused there, and reading or
+// deleting them is still NoSuchKey / a no-op). Drawn less often; always read by the invariant.
+var c02NestedKeys = []string{"a/q", "d"}
+var c02Universe = append(append([]string{}, c02Keys...), c02NestedKeys...)
+
+func c02GenKey(rt *rapid.T, label string) string {
+	if rapid.IntRange(0, 6).Draw(rt, label+"-nested") == 0 {
+		return rapid.SampledFrom(c02NestedKeys).Draw(rt, label)
+	}
+	return rapid.SampledFrom(c02Keys).Draw(rt, label)
+}
+
 // c02Exec runs a program; after every op the invariant (GET of every universe
 // key in every model bucket) is checked, at the end every bucket is listed.
 // It stops at the first step that shows a discrepancy.
@@ -154,7 +168,7 @@ func genBody(rt *rapid.T, label string) []byte {
 func c02GenOp(rt *rapid.T, single bool, mixed bool) prog.Op {
 	buckets := c02Buckets
 	b := rapid.SampledFrom(buckets).Draw(rt, "b")
-	k := rapid.SampledFrom(c02Keys).Draw(rt, "k")
+	k := c02GenKey(rt, "k")
 	kind := rapid.SampledFrom([]string{"put", "put", "put", "get", "get", "head", "del", "del", "mdel", "copy", "copy",
 		"mkbucket", "mkbucket", "rmbucket", "headbucket", "lsbuckets", "list"}).Draw(rt, "kind")
 	op := prog.Op{K: kind, B: b}
@@ -169,14 +183,14 @@ func c02GenOp(rt *rapid.T, single bool, mixed bool) prog.Op {
 	case "mdel":
 		n := rapid.IntRange(1, 4).Draw(rt, "n")
 		for i := 0; i < n; i++ {
-			op.Keys = append(op.Keys, rapid.SampledFrom(c02Keys).Draw(rt, "mk"))
+			op.Keys = append(op.Keys, c02GenKey(rt, "mk"))
 		}
 		op.Keys = dedup(op.Keys)
 		op.Quiet = rapid.Bool().Draw(rt, "quiet")
 	case "copy":
 		op.Key = k
 		op.SB = rapid.SampledFrom(buckets).Draw(rt, "sb")
-		op.SKey = rapid.SampledFrom(c02Keys).Draw(rt, "sk")
+		op.SKey = c02GenKey(rt, "sk")
 		switch rapid.IntRange(0, 4).Draw(rt, "self") {
 		case 0:
 			op.SB, op.SKey = op.B, op.Key
@@ -211,7 +225,7 @@ func c02Replay(check string, raw json.RawMessage) ([]disc, error) {
 	if err := json.Unmarshal(raw, &cs); err != nil {
 		return nil, err
 	}
-	ds, _ := c02Exec(cs, c02Keys, nil)
+	ds, _ := c02Exec(cs, c02Universe, nil)
 	return ds, nil
 }
 
@@ -323,9 +337,9 @@ func c02Run(t *testing.T, c *evid.Collector) {
 				// macro: empty a bucket completely, then delete it (and maybe re-create it)
 				b := rapid.SampledFrom(c02Buckets).Draw(rt, "db")
 				if rapid.Bool().Draw(rt, "dm") {
-					cs.Ops = append(cs.Ops, prog.Op{K: "mdel", B: b, Keys: c02Keys, Quiet: rapid.Bool().Draw(rt, "dq")})
+					cs.Ops = append(cs.Ops, prog.Op{K: "mdel", B: b, Keys: c02Universe, Quiet: rapid.Bool().Draw(rt, "dq")})
 				} else {
-					for _, dk := range c02Keys {
+					for _, dk := range c02Universe {
 						cs.Ops = append(cs.Ops, prog.Op{K: "del", B: b, Key: dk})
 					}
 				}
@@ -337,7 +351,7 @@ func c02Run(t *testing.T, c *evid.Collector) {
 			}
 			cs.Ops = append(cs.Ops, c02GenOp(rt, k.IsSingle(), mixed))
 		}
-		ds, labels := c02Exec(cs, c02Keys, c02Classify(k))
+		ds, labels := c02Exec(cs, c02Universe, c02Classify(k))
 		var ls []string
 		for l := range labels {
 			ls = append(ls, l)
